@@ -189,11 +189,18 @@ pub struct ExecSpec {
     /// worker preferred for step i (lock-step pool only)
     pub worker_picks: Vec<u8>,
     pub max_steps: u32,
+    /// priority scheduling (PCT style): when non-empty, the woken task with the highest priority is
+    /// polled (instead of the pick's preference); index = task
+    #[serde(default)]
+    pub priorities: Vec<u32>,
+    /// priority change points: at global step `.0` the task being polled drops to priority `.1`
+    #[serde(default)]
+    pub prio_changes: Vec<(u32, u32)>,
 }
 
 impl Default for ExecSpec {
     fn default() -> Self {
-        ExecSpec { fresh_waker: false, workers: 1, worker_picks: vec![], max_steps: 2000 }
+        ExecSpec { fresh_waker: false, workers: 1, worker_picks: vec![], max_steps: 2000, priorities: vec![], prio_changes: vec![] }
     }
 }
 
